@@ -813,7 +813,7 @@ fn flush_called_clear(trace: &[(usize, &'static str)]) -> Vec<bool> {
 fn answer_d(o: &OutcomeD) -> String {
     let labels: Vec<&str> = o.run.trace.iter().map(|(_, id)| *id).collect();
     // nothing sent for the key: `skip` = the flush skipped the histogram as empty (no `clear_with` call); `[]` = it called
-    // `clear_with`, which handed nothing to the writer (its detach compare-exchange failed: the model's `cleared []`)
+    // `clear_with`, which handed nothing to the writer (the model's `cleared []`: the tail was null when it was loaded)
     let called = flush_called_clear(&o.run.trace);
     let outs = list(o.flushes.iter().enumerate().map(|(k, f)| match f {
         Some(vs) => vals_tok(vs),
@@ -939,13 +939,36 @@ fn one_d(out: &mut Out, recs: &[Vec<u64>], nflush: usize, sch: &[usize], as_dist
     if tr.iter().any(|(_, id)| *id == "bkt.push.cas_new") {
         out.count("d.block.hand-over");
     }
-    // a flush whose `clear_with` failed to detach (a record() handed the tail over between the flush's tail load and its
-    // compare-exchange): that flush sends nothing for the key, the values wait for the next flush — the exactly-once
-    // oracle below holds as it stands (Lean: C05.failed_detach_delivers_nothing_and_loses_nothing)
+    // a flush whose `clear_with` failed to detach at first (a record() handed the tail over between the flush's tail load
+    // and its compare-exchange): since the fix "clear_with retries its detach when the tail moved under it" the flusher
+    // loads the tail again (`bkt.clear.load_tail` follows the failed `bkt.clear.cas`) and THAT flush sends the values
+    // (Lean: C05.detach_cas_all_or_nothing, C05.delivered_once_clear_returned). Before the fix it sent nothing.
+    let called = flush_called_clear(tr);
+    let mut nth_flush = 0usize; // flushes of the flusher begun so far (each begins with `bkt.empty.load_tail`)
     for (gi, (t, id)) in tr.iter().enumerate() {
-        if *t == f && *id == "bkt.clear.cas" && tr[gi + 1..].iter().find(|(t2, _)| *t2 == f).map(|x| x.1) != Some("bkt.clear.quiesced") {
-            out.count("d.flush.failed-detach(clear_with drained nothing; values stay for the next flush)");
-            out.nontrivial();
+        if *t == f && *id == "bkt.empty.load_tail" {
+            nth_flush += 1;
+        }
+        if *t == f && *id == "bkt.clear.cas" {
+            let next = tr[gi + 1..].iter().find(|(t2, _)| *t2 == f).map(|x| x.1);
+            if next != Some("bkt.clear.quiesced") {
+                out.count("d.flush.failed-detach(retried: clear_with loads the tail again)");
+                out.nontrivial();
+                if !matches!(next, Some("bkt.clear.load_tail") | None) {
+                    out.oracle_fail(
+                        "a flush whose detach compare-exchange failed did not load the tail again (clear_with gave up without draining)",
+                        &format!("grant {} next point {:?} trace {:?}", gi, next, tr),
+                    );
+                }
+                // the flush this CAS belongs to has returned and sent nothing although it called clear_with on a
+                // non-empty bucket: the pre-fix behaviour
+                if nth_flush >= 1 && called.get(nth_flush - 1) == Some(&true) && matches!(o.flushes.get(nth_flush - 1), Some(None)) {
+                    out.oracle_fail(
+                        "a flush whose first detach compare-exchange failed sent nothing for the histogram (values recorded before it began were left for the next flush)",
+                        &format!("flush #{} recorders {:?} flushes {:?} trace {:?}", nth_flush - 1, recs, o.flushes, tr),
+                    );
+                }
+            }
         }
     }
     oracle_d(out, recs, &o);
@@ -1065,8 +1088,8 @@ pub fn run(cfg: &Cfg, out: &mut Out) {
         }
     }
     // failed detach through the exporter: 64 recorded values fill the block; the flush (is_empty: false) loads the tail
-    // and is parked at its detach CAS; the 65th record() hands the tail over; the flush's CAS fails and it sends nothing;
-    // the second flush sends all 65
+    // and is parked at its detach CAS; the 65th record() hands the tail over; the flush's CAS fails, `clear_with` loads the
+    // tail again and THIS flush sends all 65 (before the retry fix it sent nothing and the second flush sent all 65)
     out.case("corpus D failed detach");
     {
         let recs: Vec<Vec<u64>> = vec![(1..=64u64).collect(), vec![65]];
